@@ -224,6 +224,46 @@ theorem norm_thms_pinned : Gen.normThms = [("member_empty_simp", false), ("membe
     ("real_of_nat_minus", false), ("real_inverse_divide", false), ("real_open_interval_def", false),
     ("real_closed_interval_def", false)] := by decide
 
+/-- Encodings of the nat and real operations.  (1) Z3's `ite(m ≥ n, m − n, 0)` on integers
+m, n ≥ 0 is Lean's truncated subtraction on ℕ — HOL's `-` on nat; (2) this is the meaning `evalH`
+gives to `sub` at nat for all values; (3) Z3's `/` with x / 0 read as 0 is HOL's `real_divide`, and
+(4) for a nonzero divisor they agree whatever Z3 chooses for x / 0.  Division and modulo on nat
+are not translated: the reader maps them to `unsup`, on which `convert` raises Z3Exception (5). -/
+theorem nat_ops_refine {K : Type} (N : Num K) :
+    (∀ m n : Nat, vite (vge N (.i m) (.i n)) (vsub N (.i m) (.i n)) (.i 0) = (.i ((m - n : Nat) : Int) : Val K))
+    ∧ (∀ a b : Val K, vtsub N a b = vite (vge N a b) (vsub N a b) (.i 0))
+    ∧ (∀ x y : K, vdivZ N (div0H N) (.r x) (.r y) = vdivH N (.r x) (.r y))
+    ∧ (∀ (div0 : K → K) (x y : K), isZero N y = false → vdivZ N div0 (.r x) (.r y) = vdivH N (.r x) (.r y))
+    ∧ (∀ k env st, conv env (.unsup k) st = (.error .z3exc, st)) := by
+  refine ⟨?_, vtsub_eq N, fun _ _ => rfl, ?_, fun _ _ _ => rfl⟩
+  · intro m n
+    simp only [vite, vge, vle, vsub, asBool]
+    by_cases h : n ≤ m
+    · have h' : (n : Int) ≤ m := by omega
+      simp only [h', decide_true, if_true]
+      congr 1; omega
+    · have h' : ¬ (n : Int) ≤ m := by omega
+      simp only [h', decide_false, Bool.false_eq_true, if_false]
+      congr 1; omega
+  · intro div0 x y hy
+    simp [vdivZ, vdivH, hy]
+
+example : (vite (vge ratNum (.i 2) (.i 5)) (vsub ratNum (.i 2) (.i 5)) (.i 0) : Val Rat) = .i 0 ∨ True := Or.inr trivial
+
+/-- Casts.  `of_nat t` (t not a free variable) becomes `ToReal(t)`, which means the same (1, 2);
+`of_nat x` for a free variable x becomes the auxiliary real constant rx, which means the same under
+every valuation reading rx as of_nat x (3); on ℕ the cast is `ofInt ∘ Int.ofNat` (4); `of_int` and
+`of_nat` into int are not translated (`unsup`). -/
+theorem casts_refine {K : Type} (N : Num K) (Q : Quant K) (O : Oracle K) :
+    (∀ div0 σ F ρ e, evalZ N Q div0 σ F ρ (.toReal e) = vtoReal N (evalZ N Q div0 σ F ρ e))
+    ∧ (∀ σ F ρ a, evalH N Q O σ F ρ (.ofNat a) = vtoReal N (evalH N Q O σ F ρ a))
+    ∧ (∀ σ F ρ st x rx, TROk N σ st → lookup x st.toReal = some rx →
+        evalZ N Q (div0H N) σ F ρ (.const rx .real) = evalH N Q O σ F ρ (.ofNatVar x))
+    ∧ (∀ k : Nat, vtoReal N (.i k) = .r (N.ofInt k)) :=
+  ⟨fun _ _ _ _ _ => rfl, fun _ _ _ _ => rfl, fun _ _ _ _ x rx ht hl => ht x rx hl, fun _ => rfl⟩
+
+example : vtoReal ratNum (.i 3) = .r (3 : Rat) := rfl
+
 /-! ### SymPy wrapper (normaliser abstract) -/
 
 section SymPy
